@@ -71,7 +71,7 @@ func c15Case(c *Ctx) *Result {
 	r := rngFor(c.Seed, "C15", c.Idx)
 	udp := c.Idx%2 == 1
 	event := pick(r, "local-close", "local-close", "peer-close", "client-stop", "server-stop", "net-failure")
-	idle := time.Duration(pick(r, 0, 0, 3, 7, 70, 130)) * time.Second
+	idle := time.Duration(pick(r, 0, 0, 3, 7, 70, 130, 250, 400)) * time.Second
 	nsess := pick(r, 1, 1, 2, 3)
 	blockedWriter := r.Intn(3) == 0 && !udp
 	// a client that only uploads: it never calls Read (separate generator: the other parameters keep their values)
